@@ -103,15 +103,15 @@ type c03Quota struct {
 
 type c03Pod struct {
 	labelKind int // 0: quota label names the group; 1: names a group that does not exist; 2: no quota label
-	id       int
-	quota    int
-	np       bool
-	req      c03RL
-	obj      *corev1.Pod
-	inCache  bool
-	assigned bool
-	inc      int           // incarnation: the UID of the current object is uid-<id>-<inc> (uid-<id> for the first)
-	stale    []*corev1.Pod // objects of earlier incarnations (index = incarnation)
+	id        int
+	quota     int
+	np        bool
+	req       c03RL
+	obj       *corev1.Pod
+	inCache   bool
+	assigned  bool
+	inc       int           // incarnation: the UID of the current object is uid-<id>-<inc> (uid-<id> for the first)
+	stale     []*corev1.Pod // objects of earlier incarnations (index = incarnation)
 }
 
 // c03Names overrides the generated group names (default-quota harness: 1 = default, 2 = system quota).
@@ -665,6 +665,208 @@ func (w *c03World) metaEvent(r *vRand, pending *int) {
 	}
 }
 
+// ---- quota-spec updates that change WHICH dimensions max / min declare ------------------------------------------
+
+// specShapes: what one spec update does to dimension d of one list of the declared object.
+//
+//	0 add the entry with value 0        1 add the entry with a non-zero value   2 remove the entry
+//	3 existing entry -> 0               4 existing entry 0 -> non-zero          5 the same spec is sent again
+const c03SpecShapes = 6
+
+// ownAssignedIn: some pod assigned in group q itself requests a non-zero amount of dimension d (the mask of a pod's
+// request is the key set of ITS group's max at the moment of the booking: the code never re-books assigned pods when
+// that key set changes).
+func (w *c03World) ownAssignedIn(q, d int) bool {
+	for _, p := range w.pods {
+		if p.assigned && p.quota == q && p.req.has[d] && p.req.v[d] != 0 {
+			return true
+		}
+	}
+	return false
+}
+
+// specPlan computes the declared lists after applying shape to dimension d of q's max (side 0) or min (side 1);
+// ok=false when the shape does not apply or the webhook would refuse it (a child never declares a max dimension its
+// parent lacks; min <= max).
+func (w *c03World) specPlan(r *vRand, q *c03Quota, side, d, shape int) (mx, mn c03RL, ok bool) {
+	mx, mn = q.max, q.min
+	unit := int64(1)
+	if d == 0 {
+		unit = 500
+	}
+	l := &mx
+	if side == 1 {
+		l = &mn
+	}
+	switch shape {
+	case 0, 1:
+		if l.has[d] {
+			return mx, mn, false
+		}
+		l.has[d], l.v[d] = true, 0
+		if shape == 1 {
+			l.v[d] = unit * int64(r.Range(1, 4))
+		}
+		if side == 0 && q.parent != 0 && !w.quotas[q.parent].max.has[d] {
+			return mx, mn, false
+		}
+	case 2:
+		if !l.has[d] {
+			return mx, mn, false
+		}
+		l.has[d], l.v[d] = false, 0
+		if side == 0 {
+			for _, x := range w.quotas {
+				if x.parent == q.id && x.max.has[d] {
+					return mx, mn, false
+				}
+			}
+		}
+	case 3:
+		if !l.has[d] || l.v[d] == 0 {
+			return mx, mn, false
+		}
+		l.v[d] = 0
+	case 4:
+		if !l.has[d] || l.v[d] != 0 {
+			return mx, mn, false
+		}
+		l.v[d] = unit * int64(r.Range(1, 4))
+	case 5:
+	}
+	// min <= max wherever both are declared (the webhook's rule; the runtime computation relies on it)
+	if mx.has[d] && mn.has[d] && mn.v[d] > mx.v[d] {
+		mn.v[d] = mx.v[d]
+		if d == 0 {
+			mn.v[d] -= mn.v[d] % 250
+		}
+	}
+	return mx, mn, true
+}
+
+// specFits: by the oracle's own books, the usage q shows stays within the new declared lists (the clauses the
+// closed-loop statement makes about q).
+func (w *c03World) specFits(q *c03Quota, mx, mn c03RL) bool {
+	if (w.cfgCP || !w.hasChild(q.id)) && !c03LeqMax(w.usedO(q.id, false), mx) {
+		return false
+	}
+	if !w.hasChild(q.id) && !c03LeqMax(w.usedO(q.id, true), mn) {
+		return false
+	}
+	return true
+}
+
+// specEvent: one OnQuotaUpdate(old, new) of a registered group whose new object differs from the old one in the entry
+// of ONE dimension of max or min - added (value 0 / non-zero), removed, set to 0, raised from 0 - or not at all.  The
+// oracle's books (w.quotas) take the new declared lists; every later clause reads its limits from them.  Returns the
+// group and dimension touched (0,-1: no event).
+func (w *c03World) specEvent(r *vRand, pending *int) (int, int) {
+	if len(w.order) == 0 {
+		return 0, -1
+	}
+	ids := w.sortedIDs(func(q *c03Quota) bool { return !w.special[q.id] })
+	if leaves := w.sortedIDs(func(q *c03Quota) bool { return !w.special[q.id] && !w.hasChild(q.id) }); len(leaves) > 0 && !r.Chance(1, 4) {
+		ids = leaves
+	}
+	if len(ids) == 0 {
+		return 0, -1
+	}
+	for try := 0; try < 6; try++ {
+		q := w.quotas[ids[r.Intn(len(ids))]]
+		d := c03D - 1 // mostly the extended resource
+		if r.Chance(1, 3) {
+			d = r.Intn(c03D)
+		}
+		side := 0
+		if r.Chance(1, 3) {
+			side = 1
+		}
+		shape := r.Intn(2*c03SpecShapes-1) / 2 // the re-sent identical object half as often as each other shape
+		mx, mn, ok := w.specPlan(r, q, side, d, shape)
+		if !ok {
+			continue
+		}
+		maskShift := mx.has[d] != q.max.has[d] && w.ownAssignedIn(q.id, d)
+		fits := w.specFits(q, mx, mn)
+		if w.closedLoop && (maskShift || !fits) {
+			w.h.Tag("spec:skipped-outside-closed-loop")
+			continue
+		}
+		w.h.Tag(fmt.Sprintf("spec:%s:shape%d:dim%d", []string{"max", "min"}[side], shape, d))
+		w.applySpec(q, mx, mn, d, pending)
+		return q.id, d
+	}
+	return 0, -1
+}
+
+// applySpec sends the object that declares (mx, mn) for q - differing from the current one in dimension d at most -
+// through OnQuotaUpdate, after adjusting what the oracle may still claim.
+func (w *c03World) applySpec(q *c03Quota, mx, mn c03RL, d int, pending *int) {
+	maskShift := mx.has[d] != q.max.has[d] && w.ownAssignedIn(q.id, d)
+	fits := w.specFits(q, mx, mn)
+	if mx == q.max && mn == q.min {
+		w.h.Tag("spec:identical-object-resent")
+	}
+	if maskShift {
+		// the dimension appears in / disappears from the mask of pods that are booked already: what they hold in it
+		// is never (was never) booked, and their roll-back subtracts with the new mask.  Outside the property's
+		// histories (wild stream only): model correspondence, the oracle's books are off from here on.
+		w.h.Tag("deviation:max-dimension-changed-under-assigned-pods")
+		w.acctBroken = true
+		w.closedLoop = false
+	}
+	if !fits {
+		w.closedLoop = false
+	}
+	if *pending != 0 && (mx != q.max || mn != q.min) {
+		// a limit that appears (or drops) between PreFilter and Reserve of the admitted pod: that admission was
+		// judged against the old declaration
+		for _, a := range w.chain(w.pods[*pending].quota) {
+			if a == q.id {
+				*pending = 0
+				w.h.Tag("interleave:spec-update-on-admitted-path")
+				break
+			}
+		}
+	}
+	q.max, q.min = mx, mn
+	w.setQuota(q)
+}
+
+// specProbe: a pod of group g that asks for a positive amount of dimension d and is not assigned - an existing one, or a
+// new one (defined and added to the cache here).
+func (w *c03World) specProbe(r *vRand, g, d int, nextPod *int, maxPods int) *c03Pod {
+	var ids []int
+	for id, p := range w.pods {
+		if p.inCache && !p.assigned && p.quota == g && p.labelKind == 0 && p.req.has[d] && p.req.v[d] > 0 {
+			ids = append(ids, id)
+		}
+	}
+	sort.Ints(ids)
+	if len(ids) > 0 && !r.Chance(1, 4) {
+		return w.pods[ids[r.Intn(len(ids))]]
+	}
+	if len(w.pods) >= maxPods {
+		return nil
+	}
+	p := &c03Pod{id: *nextPod, quota: g, np: r.Chance(1, 3), req: c03GenReq(r)}
+	*nextPod++
+	p.req.has[d] = true
+	p.req.v[d] = int64(r.Range(1, 2))
+	if d == 0 {
+		p.req.v[d] *= 500
+	}
+	p.obj = c03MakePod(r, p)
+	w.pods[p.id] = p
+	w.h.Op("poddef %d %d %d %s", p.id, p.quota, vB(p.np), p.req.toks())
+	w.dump()
+	w.h.Op("podadd %d", p.id)
+	w.gp.OnPodAdd(p.obj)
+	p.inCache = true
+	w.dump()
+	return p
+}
+
 func (w *c03World) chain(q int) []int { // q, parent, ... (root excluded)
 	var out []int
 	for q != 0 {
@@ -1156,6 +1358,22 @@ func c03Case(t *testing.T, h *vHarness, idx int, steps int) {
 			if len(w.order) == 0 {
 				continue
 			}
+			if r.Chance(1, 4) {
+				// the declared key set changes (or the same spec is sent again), then a pod that asks for the touched
+				// dimension in that group asks for admission
+				if g, d := w.specEvent(r, &pending); d >= 0 && r.Chance(2, 3) {
+					if p := w.specProbe(r, g, d, &nextPod, 14); p != nil {
+						pending = 0
+						if w.attempt(p) {
+							admitted++
+							pending = p.id
+						} else {
+							rejected++
+						}
+					}
+				}
+				continue
+			}
 			q := w.quotas[w.order[r.Intn(len(w.order))]]
 			for d := 0; d < c03D; d++ {
 				if !r.Bool() {
@@ -1416,8 +1634,10 @@ func c03DefaultCase(t *testing.T, h *vHarness, idx int) {
 
 // TestVerifC03Exhaustive (thorough tier): EVERY sequence of 4 events from a 12-letter alphabet, for each of the four
 // switch combinations, over one fixed small world:
-//   root <- 1 (is-parent, cpu max 3, min 3) <- 2 (cpu max 3, min 2);  root <- 3 (is-parent, cpu max 2, min 2) <- 4 (cpu max 2, min 1)
-//   pod 1 (group 2, cpu 2), pod 2 (group 2, non-preemptible, cpu 1), pod 3 (group 4, cpu 1), all known to the manager.
+//
+//	root <- 1 (is-parent, cpu max 3, min 3) <- 2 (cpu max 3, min 2);  root <- 3 (is-parent, cpu max 2, min 2) <- 4 (cpu max 2, min 1)
+//	pod 1 (group 2, cpu 2), pod 2 (group 2, non-preemptible, cpu 1), pod 3 (group 4, cpu 1), all known to the manager.
+//
 // Alphabet: scheduling cycle of pod 1 / 2 / 3; Unreserve pod 1; delete-or-re-add pod 2; move group 2 (1 <-> 3); move
 // group 3 with its subtree (root <-> 1); allow-lent flip of group 1; is-parent flip of group 2; is-parent flip of
 // group 3 (refused by the webhook while it has a child: model correspondence only); PreFilter of pod 2 alone (leaves
@@ -1610,7 +1830,7 @@ func (g *c03Gate) PreQuotaUpdate(_, _ *core.QuotaInfo, _ *v1alpha1.ElasticQuota,
 func (g *c03Gate) PostQuotaUpdate(_, _ *core.QuotaInfo, _ *v1alpha1.ElasticQuota, _ *core.QuotaUpdateState) {
 }
 func (g *c03Gate) UpdateQuotaStatus(_, _ *v1alpha1.ElasticQuota) *v1alpha1.ElasticQuota { return nil }
-func (g *c03Gate) CheckPod(string, *corev1.Pod) error                                { return nil }
+func (g *c03Gate) CheckPod(string, *corev1.Pod) error                                   { return nil }
 func (g *c03Gate) OnPodUpdated(_ string, oldPod, newPod *corev1.Pod) {
 	if oldPod == nil || newPod != nil || oldPod.Name != g.podName {
 		return
@@ -2051,5 +2271,360 @@ func c03LateCase(t *testing.T, h *vHarness, suit *pluginTestSuit, idx int, dmax 
 				tick() // nothing to move
 			}
 		}
+	}
+}
+
+// ---- quota-spec update histories ------------------------------------------------------------------------------
+
+// TestVerifC03Spec: histories dense in OnQuotaUpdate(old, new) calls that change which dimensions a group's max / min
+// declare (entry added with value 0 or a non-zero value, removed, set to 0, raised from 0, or the same spec sent
+// again), each followed by an admission attempt of a pod that asks for the touched dimension in that group.  Tree:
+// root <- 1 (is-parent) <- {2, 3}; root <- 4.  cpu and memory are always declared by max; the extended resource
+// (nvidia.com/gpu) and the entries of min come and go.  The oracle reads every limit from its own copy of the LAST
+// DECLARED object (w.quotas), never from the manager; the model applies an update iff the declared lists differ as
+// maps (zero-valued entries included).
+func TestVerifC03Spec(t *testing.T) {
+	h := vOpen("C03")
+	if h == nil {
+		t.Skip("VERIF_OUT not set")
+	}
+	c03Names = nil
+	n := h.N(60, 600)
+	const batch = 60
+	for base := 0; base < n; base += batch {
+		t.Run(fmt.Sprintf("batch%d", base), func(t *testing.T) {
+			suit := newPluginTestSuit(t, nil)
+			var lvl klog.Level
+			_ = lvl.Set("0")
+			for idx := base; idx < base+batch && idx < n; idx++ {
+				c03SpecCase(t, h, suit, idx)
+			}
+		})
+	}
+	h.Close("one history per case over root <- 1 (is-parent) <- {2,3}, root <- 4: max declares cpu + memory and (by chance, value 0..4) the extended " +
+		"resource, min declares each dimension with probability 2/3 (values 0..max); <=10 pods (gpu requests frequent, 1/3 non-preemptible); 36 events: " +
+		"PreFilter, Reserve of the admitted pod, Unreserve, OnPodDelete, OnPodAdd, value-only max/min raise and (35%) a spec update of one dimension of " +
+		"max or min - entry added with 0 / non-zero, removed, set to 0, raised from 0, identical object re-sent - followed by an attempt of a pod asking " +
+		"for that dimension; webhook-legal key sets (child within parent, min <= max); closed stream: updates under which the shown usage still fits and " +
+		"no assigned pod of the group holds the touched dimension; wild stream (1/4): any; switches = case index mod 4; non-trivial = a key-presence " +
+		"update followed by an admitted and a rejected attempt; distinct by op lines")
+}
+
+func c03SpecCase(t *testing.T, h *vHarness, suit *pluginTestSuit, idx int) {
+	r := h.Begin(idx)
+	if r == nil {
+		return
+	}
+	defer h.End()
+	pl, err := suit.proxyNew(context.TODO(), suit.elasticQuotaArgs, suit.Handle)
+	if err != nil {
+		t.Fatalf("failed to create plugin: %v", err)
+	}
+	gp := pl.(*Plugin)
+	w := &c03World{t: t, h: h, gp: gp, cfgRT: idx&1 == 1, cfgCP: idx&2 == 2, quotas: map[int]*c03Quota{}, pods: map[int]*c03Pod{},
+		stream: "spec", closedLoop: true}
+	if r.Chance(1, 4) {
+		w.stream, w.closedLoop = "spec-wild", false
+	}
+	gp.pluginArgs.EnableRuntimeQuota = w.cfgRT
+	gp.pluginArgs.EnableCheckParentQuota = w.cfgCP
+	h.Tag("stream:" + w.stream)
+	h.Tag(fmt.Sprintf("switches:rt%d-cp%d", vB(w.cfgRT), vB(w.cfgCP)))
+	h.Op("dims %d", c03D)
+	genMax := func(parent *c03Quota) c03RL {
+		m := c03RL{has: [c03D]bool{true, true, r.Bool()}, v: [c03D]int64{int64(r.Range(3, 12)) * 500, int64(r.Range(3, 12)), int64(r.Range(0, 4))}}
+		if parent != nil && !parent.max.has[2] {
+			m.has[2] = false
+		}
+		if !m.has[2] {
+			m.v[2] = 0
+		}
+		return m
+	}
+	genMin := func(mx c03RL) c03RL {
+		var m c03RL
+		for d := 0; d < c03D; d++ {
+			if !r.Chance(2, 3) {
+				continue
+			}
+			m.has[d] = true
+			if mx.has[d] && !r.Chance(1, 3) {
+				m.v[d] = r.Int63n(mx.v[d] + 1)
+				if d == 0 {
+					m.v[d] -= m.v[d] % 250
+				}
+			}
+		}
+		return m
+	}
+	for id := 1; id <= 4; id++ {
+		q := &c03Quota{id: id, isParent: id == 1, lent: !r.Chance(1, 4)}
+		var parent *c03Quota
+		if id == 2 || id == 3 {
+			q.parent = 1
+			parent = w.quotas[1]
+		}
+		q.max = genMax(parent)
+		q.min = genMin(q.max)
+		w.quotas[id] = q
+	}
+	capacity := c03RL{has: [c03D]bool{true, true, true}, v: [c03D]int64{int64(r.Range(4, 40)) * 500, int64(r.Range(4, 40)), int64(r.Range(0, 8))}}
+	w.rv++
+	h.Op("cap %s", vInts(capacity.v[:]))
+	gp.OnNodeAdd(c03Node(capacity, w.rv))
+	w.dump()
+	for id := 1; id <= 4; id++ {
+		w.setQuota(w.quotas[id])
+	}
+	nextPod, pending := 1, 0
+	admitted, rejected, keyUpdates := 0, 0, 0
+	pick := func(pred func(*c03Pod) bool) *c03Pod {
+		var ids []int
+		for id, p := range w.pods {
+			if pred(p) {
+				ids = append(ids, id)
+			}
+		}
+		if len(ids) == 0 {
+			return nil
+		}
+		sort.Ints(ids)
+		return w.pods[ids[r.Intn(len(ids))]]
+	}
+	try := func(p *c03Pod) {
+		pending = 0
+		if w.attempt(p) {
+			admitted++
+			pending = p.id
+		} else {
+			rejected++
+		}
+	}
+	for step := 0; step < 36; step++ {
+		k := r.Intn(100)
+		switch {
+		case pending != 0 && k < 70:
+			p := w.pods[pending]
+			pending = 0
+			h.Op("res %d", p.id)
+			st := gp.Reserve(context.TODO(), framework.NewCycleState(), p.obj, "n1")
+			if !st.IsSuccess() {
+				h.Fail("C03:reserve-failed", "Reserve returned %v", st.Code())
+			}
+			if p.inCache {
+				p.assigned = true
+			}
+			w.dump()
+		case k < 30:
+			p := pick(func(p *c03Pod) bool { return p.inCache && !p.assigned })
+			if (p == nil || r.Chance(1, 4)) && len(w.pods) < 10 {
+				g := r.Range(1, 4)
+				if g == 1 && !r.Chance(1, 4) {
+					g = r.Range(2, 4)
+				}
+				p = w.specProbe(r, g, r.Intn(c03D), &nextPod, 10)
+			}
+			if p != nil {
+				try(p)
+			}
+		case k < 40:
+			if p := pick(func(p *c03Pod) bool { return p.assigned }); p != nil {
+				h.Op("unres %d", p.id)
+				gp.Unreserve(context.TODO(), framework.NewCycleState(), p.obj, "n1")
+				p.assigned = false
+				if p.id == pending {
+					pending = 0
+				}
+				w.dump()
+			}
+		case k < 48:
+			if p := pick(func(p *c03Pod) bool { return p.inCache }); p != nil {
+				h.Op("del %d", p.id)
+				gp.OnPodDelete(p.obj)
+				p.inCache, p.assigned = false, false
+				if p.id == pending {
+					pending = 0
+				}
+				w.dump()
+			}
+		case k < 54:
+			if p := pick(func(p *c03Pod) bool { return !p.inCache }); p != nil {
+				h.Op("podadd %d", p.id)
+				gp.OnPodAdd(p.obj)
+				p.inCache = true
+				w.dump()
+			}
+		case k < 62:
+			// value-only raise of declared entries
+			q := w.quotas[r.Range(1, 4)]
+			for d := 0; d < c03D; d++ {
+				unit := int64(1)
+				if d == 0 {
+					unit = 500
+				}
+				if q.max.has[d] && r.Bool() {
+					q.max.v[d] += unit * int64(r.Range(0, 2))
+				}
+				if q.min.has[d] && q.max.has[d] && r.Bool() && q.min.v[d] < q.max.v[d] {
+					q.min.v[d] = q.max.v[d]
+				}
+			}
+			w.setQuota(q)
+		default:
+			before := map[int][2][c03D]bool{}
+			for id, q := range w.quotas {
+				before[id] = [2][c03D]bool{q.max.has, q.min.has}
+			}
+			g, d := w.specEvent(r, &pending)
+			if d < 0 {
+				continue
+			}
+			if before[g] != [2][c03D]bool{w.quotas[g].max.has, w.quotas[g].min.has} {
+				keyUpdates++
+			}
+			if r.Chance(1, 6) {
+				continue
+			}
+			if p := w.specProbe(r, g, d, &nextPod, 10); p != nil {
+				try(p)
+			}
+		}
+	}
+	if keyUpdates > 0 && admitted > 0 && rejected > 0 {
+		h.Nontrivial()
+	}
+}
+
+// TestVerifC03SpecExhaustive (thorough tier): EVERY sequence of 4 events from a 10-letter alphabet, for each of the four
+// switch combinations, over root <- 1 (is-parent, max cpu 8 / mem 16 / gpu 1) <- 2 (max cpu 4 / mem 8, min cpu 2 / mem 4,
+// no gpu entry) with pods 1 (gpu 1), 2 (non-preemptible, gpu 1), 3 (gpu 1) of group 2 (each also cpu 500m):
+//
+//	0-2  an object for group 2 whose max has no gpu entry / gpu: 0 / gpu: 1
+//	3-5  an object for group 2 whose min has no gpu entry / gpu: 0 / gpu: 1 (clamped to max)
+//	6-8  scheduling cycle (PreFilter, Reserve iff admitted) of pod 1 / 2 / 3
+//	9    Unreserve pod 1
+//
+// (a letter 0-5 that names the current state re-sends the identical object).  An update under which the shown usage
+// no longer fits switches the used <= max / min clauses off; one that shifts the mask of an assigned pod leaves model
+// correspondence only.
+func TestVerifC03SpecExhaustive(t *testing.T) {
+	h := vOpen("C03")
+	if h == nil {
+		t.Skip("VERIF_OUT not set")
+	}
+	c03Names = nil
+	const nev, length = 10, 4
+	words := 1
+	for i := 0; i < length; i++ {
+		words *= nev
+	}
+	n := h.N(0, 4*words)
+	const batch = 200
+	for base := 0; base < n; base += batch {
+		t.Run(fmt.Sprintf("batch%d", base), func(t *testing.T) {
+			suit := newPluginTestSuit(t, nil)
+			var lvl klog.Level
+			_ = lvl.Set("0")
+			for idx := base; idx < base+batch && idx < n; idx++ {
+				c03SpecExhaustiveCase(t, h, suit, idx, idx/words, idx%words, nev, length)
+			}
+		})
+	}
+	h.Close("exhaustive small scope: all 10^4 words over {gpu entry of group 2's max absent/0/1, of its min absent/0/1, cycle of pod 1/2/3, " +
+		"Unreserve pod 1} x 4 switch combinations (see the test's comment); non-trivial = at least one admitted and one rejected attempt; distinct by op lines")
+}
+
+func c03SpecExhaustiveCase(t *testing.T, h *vHarness, suit *pluginTestSuit, idx, sw, word, nev, length int) {
+	r := h.Begin(idx)
+	if r == nil {
+		return
+	}
+	defer h.End()
+	pl, err := suit.proxyNew(context.TODO(), suit.elasticQuotaArgs, suit.Handle)
+	if err != nil {
+		t.Fatalf("failed to create plugin: %v", err)
+	}
+	gp := pl.(*Plugin)
+	w := &c03World{t: t, h: h, gp: gp, cfgRT: sw&1 == 1, cfgCP: sw&2 == 2, quotas: map[int]*c03Quota{}, pods: map[int]*c03Pod{},
+		stream: "spec-exhaustive", closedLoop: true}
+	gp.pluginArgs.EnableRuntimeQuota = w.cfgRT
+	gp.pluginArgs.EnableCheckParentQuota = w.cfgCP
+	h.Tag(fmt.Sprintf("switches:rt%d-cp%d", vB(w.cfgRT), vB(w.cfgCP)))
+	h.Op("dims %d", c03D)
+	full := [c03D]bool{true, true, true}
+	two := [c03D]bool{true, true, false}
+	w.quotas[1] = &c03Quota{id: 1, isParent: true, lent: true, max: c03RL{has: full, v: [c03D]int64{8000, 16, 1}}, min: c03RL{has: two, v: [c03D]int64{4000, 8, 0}}}
+	w.quotas[2] = &c03Quota{id: 2, parent: 1, lent: true, max: c03RL{has: two, v: [c03D]int64{4000, 8, 0}}, min: c03RL{has: two, v: [c03D]int64{2000, 4, 0}}}
+	capacity := c03RL{has: full, v: [c03D]int64{20000, 100, 10}}
+	w.rv++
+	h.Op("cap %s", vInts(capacity.v[:]))
+	gp.OnNodeAdd(c03Node(capacity, w.rv))
+	w.dump()
+	w.setQuota(w.quotas[1])
+	w.setQuota(w.quotas[2])
+	for id := 1; id <= 3; id++ {
+		p := &c03Pod{id: id, quota: 2, np: id == 2, req: c03RL{has: [c03D]bool{true, false, true}, v: [c03D]int64{500, 0, 1}}}
+		p.obj = c03MakePod(r, p)
+		w.pods[id] = p
+		h.Op("poddef %d %d %d %s", p.id, p.quota, vB(p.np), p.req.toks())
+		w.dump()
+		h.Op("podadd %d", p.id)
+		gp.OnPodAdd(p.obj)
+		p.inCache = true
+		w.dump()
+	}
+	pending, admitted, rejected := 0, 0, 0
+	q := w.quotas[2]
+	for step := 0; step < length; step++ {
+		ev := word % nev
+		word /= nev
+		h.Tag(fmt.Sprintf("event:%d", ev))
+		switch {
+		case ev < 6:
+			mx, mn := q.max, q.min
+			l := &mx
+			if ev >= 3 {
+				l = &mn
+			}
+			switch ev % 3 {
+			case 0:
+				l.has[2], l.v[2] = false, 0
+			case 1:
+				l.has[2], l.v[2] = true, 0
+			case 2:
+				l.has[2], l.v[2] = true, 1
+			}
+			if mx.has[2] && mn.has[2] && mn.v[2] > mx.v[2] {
+				mn.v[2] = mx.v[2]
+			}
+			w.applySpec(q, mx, mn, 2, &pending)
+		case ev < 9:
+			p := w.pods[ev-5]
+			if p.assigned {
+				continue
+			}
+			if w.attempt(p) {
+				admitted++
+				h.Op("res %d", p.id)
+				st := gp.Reserve(context.TODO(), framework.NewCycleState(), p.obj, "n1")
+				if !st.IsSuccess() {
+					h.Fail("C03:reserve-failed", "Reserve returned %v", st.Code())
+				}
+				p.assigned = true
+				w.dump()
+			} else {
+				rejected++
+			}
+		default:
+			if p := w.pods[1]; p.assigned {
+				h.Op("unres %d", p.id)
+				gp.Unreserve(context.TODO(), framework.NewCycleState(), p.obj, "n1")
+				p.assigned = false
+				w.dump()
+			}
+		}
+	}
+	if admitted > 0 && rejected > 0 {
+		h.Nontrivial()
 	}
 }
